@@ -272,11 +272,21 @@ def knownRecvStores : List (String × String × String) := [
   ("OpReceive", "if b != 0 then", "vm.setBool(b, vm.ok)"),
   ("OpSelect", "if step > 0 then; if vm.cases[chosen].Dir == reflect.SelectRecv then; if r != 0 then", "vm.setFromReflectValue(r, recv)"),
   ("OpSelect", "if step > 0 then; if vm.cases[chosen].Dir == reflect.SelectRecv then", "vm.ok = recvOK"),
-  ("OpRange", "if b != 0 then", "vm.setFromReflectValue(b, u)")]
+  ("OpRange", "if b != 0 then", "vm.setFromReflectValue(b, copyOfElement(u))")]
+
+/-- the one function a received value passes through before it is stored, as read by hand: the
+element itself, or — for structs and arrays, which a general register keeps by value — a new
+addressable value set to it: an equal value in every case -/
+def knownRecvStoreWrappers : List (String × String) := [
+  ("copyOfElement", "func(v reflect.Value) reflect.Value { if k := v.Kind(); k == reflect.Struct || k == reflect.Array { e := reflect.New(v.Type()).Elem() e.Set(v) return e } return v }")]
 
 /-- **generated fact** `received_value_stored_whatever_ok`: the code is the unguarded store of
 `recv_store_unguarded_is_go` -/
 theorem received_value_stored_whatever_ok : recvStores = knownRecvStores := by decide
+
+/-- **generated fact** `received_value_stored_unchanged`: what stands between the received value
+and the register is the value copy read above and nothing else -/
+theorem received_value_stored_unchanged : recvStoreWrappers = knownRecvStoreWrappers := by decide +kernel
 
 end ScriggoV.GoCopy
 
@@ -398,10 +408,42 @@ theorem select_sees_only_own_cases :
   decide
 
 /-- **generated fact** `cases_written_only_by_channel_instructions`: nothing else in the runtime
-package assigns `vm.cases` -/
+package assigns `vm.cases` — but the deferred function of `runRecoverable` on the way of a panic,
+whose doing is `recovered_panic_leaves_empty_buffer` -/
 theorem cases_written_only_by_channel_instructions :
-    casesWriters = ["Reset", "run/OpCase", "run/OpRange/reflect.Chan", "run/OpReceive", "run/OpSelect", "run/OpSend"] := by
+    casesWriters = ["Reset", "run/OpCase", "run/OpRange/reflect.Chan", "run/OpReceive", "run/OpSelect", "run/OpSend",
+      "runRecoverable/recovered"] := by
   decide
+
+/-- **generated fact** `recovered_panic_leaves_empty_buffer`: a panic raised inside
+`reflect.Select` (a send case on a closed channel) leaves OpSend, OpReceive, the channel case of
+OpRange — with a Done channel, where they go through `reflect.Select` — and OpSelect — with and
+without one, whatever the number of cases OpCase pushed — before the clause empties the buffer;
+the deferred function of `runRecoverable` empties it whatever its length, so that the goroutine, if
+the program recovers the panic, meets its next channel operation with an empty buffer: the
+hypothesis `c.cases = []` of `context_is_transparent` and `cases_empty_at_every_operation` holds
+again for what it runs from there. When no panic is under way the deferred function leaves the
+buffer alone. (The runs of `Model/ChanSeq.lean` end at a panic; programs that recover one and go on
+are tied by the closed-channel stream of the harness under all four context modes.) -/
+theorem recovered_panic_leaves_empty_buffer :
+    recoveredAt true opSend .zero recoverHandler .zero = true ∧
+    recoveredAt true opReceive .zero recoverHandler .zero = true ∧
+    recoveredAt true opRangeChan .zero recoverHandler .zero = true ∧
+    recoveredAt true opSelect .entry recoverHandler .zero = true ∧
+    recoveredAt false opSelect .entry recoverHandler .zero = true ∧
+    handlerLeaves true (onReturn recoverHandler) .entry .entry = true ∧
+    handlerLeaves false (onReturn recoverHandler) .entry .entry = true := by
+  decide
+
+-- without a Done channel OpSend, OpReceive and OpRange do not go through reflect.Select: no panic
+-- point at which the buffer is not empty
+example : panicLens (summary false opSend .zero) = [] ∧ panicLens (summary false opReceive .zero) = [] ∧
+    panicLens (summary false opRangeChan .zero) = [] := by decide
+
+-- the handler as it was before it emptied the buffer (no statement about vm.cases) is refused:
+-- `[send c, done]` stays behind a recovered `c <- v` on a closed channel
+example : recoveredAt true opSend .zero [.ite .panicking [] []] .zero = false ∧
+    recoveredAt false opSelect .entry [] .zero = false := by decide
 
 /-- **generated fact** `code_empties_case_buffer`: the policy read off run.go is the good one -/
 theorem code_empties_case_buffer : policyOfCode = Policy.good := by decide
